@@ -86,6 +86,27 @@ def run(rec, F):
                 syncempty[1] = True
             if d[0] == "discr" and sem.desc_mentions_field(d, "state") and outc == "Ready":
                 ready = True
+        if not ready:
+            # the state test spelled as a bool predicate (`if self.is_closed() { return Closed }`): decide it per state
+            # and accept when the edge taken is only possible in Ready
+            QS = next((k for k in F.adts if k.endswith("::ChannelQueueState")), None)
+            STATES = [v["name"] for v in F.adts[QS]["variants"]] if QS else []
+            for w, d, outc in gs:
+                tw = send.blocks[w]["t"]
+                if tw["ty"] != "bool" or not STATES or not isinstance(outc, bool):
+                    continue
+                l = sem.op_local(tw["on"])
+                truth = {k: (sem.eval_bool_under_variant(F, send, l, "state", k) if l is not None else None) for k in STATES}
+                if any(v is None for v in truth.values()):
+                    continue
+                taken = None
+                for val, dst in tw["targets"]:
+                    if send.edge_dominates(w, dst, bi):
+                        taken = (val != "0")
+                if taken is None and send.edge_dominates(w, tw["otherwise"], bi):
+                    taken = True
+                if taken is not None and [k for k in STATES if truth[k] == taken] == ["Ready"]:
+                    ready = True
         ok = strict or all(syncempty)
         rec.inst(RC, "send:push_back@guard", ok=ok, loc=loc_of(t["sp"]), note="strict-len<cap" if strict else "sync&&empty")
         if not ok:
